@@ -41,4 +41,18 @@ E_pres == {St("pres", "", ks) : ks \in KidSeqs({Nm("A", "y"), Nm("B", "x")}, 1)}
 U_replay == {Pat("msg", "normal", "", ""), Pat("msg", "normal", "A", "x"), Pat("msg", "normal", "", "y")}
 E_replay == {St("msg", "normal", ks) : ks \in KidSeqs({Nm("A", "x"), Nm("B", "y"), Txt}, 3)}
 E_replay2 == {St("msg", "normal", ks) : ks \in KidSeqs({Nm("A", "x"), Nm("B", "y"), Txt}, 2)}
+
+(* nested routing: a handler of the outer stanza routes another stanza through the same multiplexer *)
+St2(k, t, kids) == El(k, "NS", k, t, "i2", "f", kids)
+U_nest == {Pat("msg", "normal", "", ""), Pat("msg", "normal", "A", "x"), Pat("msg", "normal", "", "y"), Pat("pres", "", "", "")}
+E_nest == {St("msg", "normal", ks) : ks \in KidSeqs({Nm("A", "x"), Nm("B", "y"), Txt}, 2) \ {<<>>, <<Txt>>}}
+          \cup {St("msg", "normal", <<Nm("A", "x"), Nm("B", "y"), Nm("A", "x")>>)}
+I_nest == {St2("msg", "normal", <<Nm("B", "y")>>), St2("msg", "normal", <<Nm("C", "z"), Nm("A", "x")>>), St2("msg", "normal", <<>>),
+           St2("pres", "", <<Nm("A", "x"), Txt>>), St2("iq", "get", <<Nm("A", "x")>>)}
+(* construction: every way of making the multiplexer, registration after first use *)
+U_ctor == {Pat("msg", "normal", "", ""), Pat("msg", "normal", "A", "x"), Pat("iq", "get", "A", ""), Pat("iq", "get", "", "x"), Pat("top", "", "B", "y")}
+E_ctor == {St("msg", "normal", <<Nm("A", "x"), Nm("B", "y")>>), St("msg", "normal", <<>>), St("iq", "get", <<Nm("A", "x")>>), St("iq", "set", <<Nm("A", "x")>>),
+           St("pres", "", <<Nm("A", "x")>>), TopEl(Nm("B", "y")), TopEl(Nm("C", "z"))}
+AllCtors == {"new", "zero", "late", "afteruse"}
+E_nestT == E_replay \ {St("msg", "normal", <<>>), St("msg", "normal", <<Txt>>)}
 =============================================================================
